@@ -1,7 +1,266 @@
-import BytomModel.Model.BanScore
-namespace BytomModel.Props.C35
-open BytomModel.Model.BanScore
+/-
+C35 — Peer ban scores follow the documented decay rule.
 
-theorem placeholder_u32 : u32 two32 = 0 := by decide
+All theorems are about `BytomModel.Model.BanScore` (the model of `DynamicBanScore.int` /
+`.increase` that is compared — instantiated with IEEE doubles — with both copies of the
+real code on every run), here instantiated with an ARBITRARY linearly ordered field `α`
+with a floor function, `trunc x = ⌊x⌋₊`, and an arbitrary decay function `d` satisfying
+`Decay d`.  Clock differences are assumed to fit `int64` (`InRange`).
+-/
+import BytomModel.Model.BanScore
+import Mathlib.Algebra.Order.Floor.Semiring
+import Mathlib.Algebra.Order.Field.Basic
+import Mathlib.Tactic.Linarith
+import Mathlib.Tactic.Positivity
+import Mathlib.Tactic.NormNum
+import Mathlib.Data.Rat.Floor
+
+namespace BytomModel.Props.C35
+open BytomModel.Model.BanScore BytomModel.Fixed
+
+set_option linter.unusedSectionVars false
+
+variable {α : Type} [Field α] [LinearOrder α] [IsStrictOrderedRing α] [FloorSemiring α]
+
+/-- Go `uint32(x)` before the reduction modulo 2^32 -/
+def fl (x : α) : Nat := ⌊x⌋₊
+
+/-- what the theorems need of `decayFactor` (all true of `2^(-t/60)`, see `Decay.halflife`) -/
+structure Decay (d : Int → α) : Prop where
+  zero : d 0 = 1
+  pos : ∀ t, 0 ≤ t → 0 < d t
+  le_one : ∀ t, 0 ≤ t → d t ≤ 1
+
+/-- the clock difference fits `int64` -/
+def InRange (t last : Int) : Prop := -(9223372036854775808 : Int) ≤ t - last ∧ t - last < 9223372036854775808
+
+theorem elapsed_eq {t last : Int} (h : InRange t last) : elapsed t last = t - last := by
+  unfold InRange at h
+  unfold elapsed wrapI
+  simp only [Nat.reduceSub, Int.reducePow]
+  omega
+
+theorem u32_le (n : Nat) : u32 n ≤ n := Nat.mod_le _ _
+theorem u32_lt (n : Nat) : u32 n < two32 := Nat.mod_lt _ (by decide)
+theorem u32_id {n : Nat} (h : n < two32) : u32 n = n := Nat.mod_eq_of_lt h
+
+/-! ### the score formula -/
+
+/-- inside the lifetime, with a transient part of at least 1, the score is
+    `persistent + ⌊transient · d(t − last)⌋` (both additions in `uint32`) -/
+theorem score_formula (d : Int → α) (s : State α) (t : Int) (hr : InRange t s.lastUnix)
+    (h1 : 1 ≤ s.transient) (h2 : 0 ≤ t - s.lastUnix) (h3 : t - s.lastUnix ≤ 1800) :
+    score d fl s t = u32 (s.persistent + u32 (fl (s.transient * d (t - s.lastUnix)))) := by
+  unfold score
+  simp only [elapsed_eq hr, lifetime, Nat.cast_one]
+  rw [if_neg]
+  intro h
+  rcases h with h | h | h
+  · exact absurd h1 (not_le.mpr h)
+  · omega
+  · omega
+
+/-- … and exactly `persistent + ⌊transient · d(t − last)⌋` when that fits `uint32` -/
+theorem score_formula_nowrap (d : Int → α) (s : State α) (t : Int) (hr : InRange t s.lastUnix)
+    (h1 : 1 ≤ s.transient) (h2 : 0 ≤ t - s.lastUnix) (h3 : t - s.lastUnix ≤ 1800)
+    (hw : s.persistent + fl (s.transient * d (t - s.lastUnix)) < two32) :
+    score d fl s t = s.persistent + fl (s.transient * d (t - s.lastUnix)) := by
+  rw [score_formula d s t hr h1 h2 h3, u32_id (n := fl _) (by omega), u32_id hw]
+
+/-- otherwise (no transient part, clock moved backwards, or lifetime over) it is the persistent score -/
+theorem score_formula_else (d : Int → α) (s : State α) (t : Int) (hr : InRange t s.lastUnix)
+    (h : s.transient < 1 ∨ t - s.lastUnix < 0 ∨ 1800 < t - s.lastUnix) :
+    score d fl s t = s.persistent := by
+  unfold score
+  simp only [elapsed_eq hr, lifetime, Nat.cast_one]
+  rw [if_pos h]
+
+/-- the transient part is forgotten after 30 minutes -/
+theorem lifetime_forgets (d : Int → α) (s : State α) (t : Int) (hr : InRange t s.lastUnix)
+    (h : 1800 < t - s.lastUnix) : score d fl s t = s.persistent :=
+  score_formula_else d s t hr (Or.inr (Or.inr h))
+
+/-- the score is a `uint32` value (in particular never negative) -/
+theorem score_range (d : Int → α) (s : State α) (t : Int) (hp : s.persistent < two32) : score d fl s t < two32 := by
+  unfold score
+  dsimp only
+  split
+  · exact hp
+  · exact u32_lt _
+
+/-- the score never exceeds `persistent + ⌊transient · d⌋`, and is at least `persistent` when that sum fits -/
+theorem score_bounds (d : Int → α) (hd : Decay d) (s : State α) (t : Int) (hr : InRange t s.lastUnix) (h0 : 0 ≤ s.transient)
+    (hw : s.persistent + fl s.transient < two32) :
+    s.persistent ≤ score d fl s t ∧ score d fl s t ≤ s.persistent + fl s.transient := by
+  unfold score
+  simp only [elapsed_eq hr, lifetime, Nat.cast_one]
+  split
+  · omega
+  · rename_i hc
+    simp only [not_or, not_lt] at hc
+    have hle : fl (s.transient * d (t - s.lastUnix)) ≤ fl s.transient := by
+      apply Nat.floor_le_floor
+      have := hd.le_one _ hc.2.1
+      nlinarith
+    rw [u32_id (n := fl _) (by omega), u32_id (by omega)]
+    omega
+
+/-- the decay function is consulted only on `[0, Lifetime]` (inside the precomputed table or
+    the `math.Exp` branch, never with a negative index) -/
+theorem score_congr (d d' : Int → α) (hdd : ∀ x, 0 ≤ x → x ≤ 1800 → d x = d' x) (s : State α) (t : Int) :
+    score d fl s t = score d' fl s t := by
+  unfold score
+  dsimp only
+  split
+  · rfl
+  · rename_i hc
+    simp only [not_or, not_lt, lifetime] at hc
+    rw [hdd _ hc.2.1 hc.2.2]
+
+theorem increase_congr (d d' : Int → α) (hdd : ∀ x, 0 ≤ x → x ≤ 1800 → d x = d' x) (s : State α) (p tr : Nat) (t : Int) :
+    increase d fl s p tr t = increase d' fl s p tr t := by
+  have : decayed d s (elapsed t s.lastUnix) = decayed d' s (elapsed t s.lastUnix) := by
+    unfold decayed
+    split
+    · rfl
+    · rename_i h1
+      split
+      · rename_i h2
+        simp only [lifetime, not_lt] at h1
+        rw [hdd _ (le_of_lt h2.2) h1]
+      · rfl
+  unfold increase
+  simp only [this]
+
+/-! ### half-life -/
+
+/-- an exponential decay with `d 60 = 1/2` halves every 60 seconds: the transient part read
+    60 s later is half of what it is now -/
+theorem halflife (d : Int → α) (hmul : ∀ a b, 0 ≤ a → 0 ≤ b → d (a + b) = d a * d b) (hhalf : d 60 = 1 / 2)
+    (x : α) (dt : Int) (h : 0 ≤ dt) : x * d (dt + 60) = x * d dt / 2 := by
+  rw [hmul dt 60 h (by decide), hhalf]; ring
+
+/-! ### increase -/
+
+theorem decayed_nonneg (d : Int → α) (hd : Decay d) (s : State α) (dt : Int) (h0 : 0 ≤ s.transient) :
+    0 ≤ decayed d s dt := by
+  unfold decayed
+  split
+  · simp
+  · split
+    · rename_i h
+      have := hd.pos dt (le_of_lt h.2)
+      positivity
+    · exact h0
+
+/-- the transient field after `increase(_, tr, t)` -/
+def newTransient (d : Int → α) (s : State α) (tr : Nat) (t : Int) : α :=
+  if 0 < tr then decayed d s (elapsed t s.lastUnix) + (tr : α) else s.transient
+
+omit [IsStrictOrderedRing α] in
+theorem increase_transient (d : Int → α) (s : State α) (p tr : Nat) (t : Int) :
+    (increase d fl s p tr t).1.transient = newTransient d s tr t := by
+  unfold increase newTransient; dsimp only; split <;> rfl
+
+omit [IsStrictOrderedRing α] in
+theorem increase_result (d : Int → α) (s : State α) (p tr : Nat) (t : Int) :
+    (increase d fl s p tr t).2 = u32 (u32 (s.persistent + p) + u32 (fl (newTransient d s tr t))) := by
+  unfold increase newTransient; dsimp only; split <;> rfl
+
+/-- an increase with a transient amount returns exactly the score at that instant -/
+theorem increase_returns_score_partial (d : Int → α) (hd : Decay d) (s : State α) (p tr : Nat) (t : Int)
+    (h0 : 0 ≤ s.transient) (htr : 0 < tr) :
+    (increase d fl s p tr t).2 = score d fl (increase d fl s p tr t).1 t := by
+  have hn := decayed_nonneg d hd s (elapsed t s.lastUnix) h0
+  have h1 : (1 : α) ≤ decayed d s (elapsed t s.lastUnix) + (tr : α) := by
+    have : (1 : α) ≤ (tr : α) := by exact_mod_cast htr
+    linarith
+  unfold increase score
+  simp only [if_pos htr]
+  have he : elapsed t t = 0 := by
+    unfold elapsed wrapI; simp
+  simp only [he, Nat.cast_one, hd.zero, mul_one]
+  rw [if_neg]
+  intro h
+  rcases h with h | h | h
+  · exact absurd h1 (not_le.mpr h)
+  · omega
+  · simp [lifetime] at h
+
+/-- the returned score is the decayed score — at full strength (also for `transient = 0`) -/
+def increase_returns_score_full : Prop :=
+  ∀ (d : Int → ℚ) (s : State ℚ) (p tr : Nat) (t : Int), Decay d → 0 ≤ s.transient → InRange t s.lastUnix →
+    (increase d fl s p tr t).2 = score d fl (increase d fl s p tr t).1 t
+
+/-- F21b: four connection exceptions (transient 80 at t = 1000), one illegal message
+    (persistent 20, transient 0) two hours later: `increase` returns 100, the score is 20 -/
+theorem increase_returns_score_full_refuted : ¬ increase_returns_score_full := by
+  intro h
+  have hd : Decay (fun _ : Int => (1 : ℚ)) := ⟨rfl, fun _ _ => by norm_num, fun _ _ => le_refl _⟩
+  have := h (fun _ => 1) ⟨1000, 80, 0⟩ 20 0 8200 hd (by norm_num) (by unfold InRange; norm_num)
+  have e : elapsed 8200 1000 = 7200 := by unfold elapsed wrapI; norm_num
+  have f80 : fl (80 : ℚ) = 80 := by unfold fl; exact_mod_cast Nat.floor_natCast (R := ℚ) 80
+  simp [increase, score, e, lifetime, u32, two32, f80] at this
+
+/-- each increase raises the score at that instant by at least the added persistent amount —
+    provided the `uint32` sums do not wrap -/
+theorem monotone_in_persistent_partial (d : Int → α) (hd : Decay d) (s : State α) (p tr : Nat) (t : Int)
+    (hr : InRange t s.lastUnix) (h0 : 0 ≤ s.transient)
+    (hw : s.persistent + p + fl (increase d fl s p tr t).1.transient < two32) :
+    score d fl s t + p ≤ (increase d fl s p tr t).2 := by
+  rw [increase_transient] at hw
+  -- the returned value without wrap
+  have hret : (increase d fl s p tr t).2 = s.persistent + p + fl (newTransient d s tr t) := by
+    rw [increase_result, u32_id (n := s.persistent + p) (by omega), u32_id (n := fl _) (by omega), u32_id (by omega)]
+  rw [hret]
+  -- the score before is at most persistent + ⌊transient·d⌋ ≤ persistent + ⌊new transient⌋
+  unfold score
+  simp only [elapsed_eq hr, lifetime, Nat.cast_one]
+  split
+  · omega
+  · rename_i hc
+    simp only [not_or, not_lt] at hc
+    have hdle := hd.le_one _ hc.2.1
+    have hdpos := hd.pos _ hc.2.1
+    have key : fl (s.transient * d (t - s.lastUnix)) ≤ fl (newTransient d s tr t) := by
+      apply Nat.floor_le_floor
+      unfold newTransient
+      simp only [elapsed_eq hr]
+      split
+      · rename_i htr
+        have : (0 : α) ≤ (tr : α) := Nat.cast_nonneg _
+        unfold decayed
+        rw [if_neg (by simp only [lifetime]; omega)]
+        split
+        · linarith
+        · nlinarith
+      · nlinarith
+    have := u32_le (s.persistent + u32 (fl (s.transient * d (t - s.lastUnix))))
+    have := u32_le (fl (s.transient * d (t - s.lastUnix)))
+    omega
+
+/-- … at full strength (no side condition) -/
+def monotone_in_persistent_full : Prop :=
+  ∀ (d : Int → ℚ) (s : State ℚ) (p tr : Nat) (t : Int), Decay d → 0 ≤ s.transient → s.persistent < two32 → p < two32 →
+    InRange t s.lastUnix → score d fl s t + p ≤ (increase d fl s p tr t).2
+
+/-- F21: persistent 2^32 − 1, `increase(1, 0, t)` returns 0 -/
+theorem monotone_in_persistent_full_refuted : ¬ monotone_in_persistent_full := by
+  intro h
+  have hd : Decay (fun _ : Int => (1 : ℚ)) := ⟨rfl, fun _ _ => by norm_num, fun _ _ => le_refl _⟩
+  have := h (fun _ => 1) ⟨0, 0, 4294967295⟩ 1 0 10 hd (by norm_num) (by decide) (by decide) (by unfold InRange; norm_num)
+  have f0 : fl (0 : ℚ) = 0 := by unfold fl; simp
+  simp [increase, score, u32, two32, f0] at this
+
+/-- the persistent part is the `uint32` sum of the added amounts, untouched by time -/
+theorem increase_persistent (d : Int → α) (s : State α) (p tr : Nat) (t : Int) :
+    (increase d fl s p tr t).1.persistent = u32 (s.persistent + p) := by
+  unfold increase; simp only; split <;> rfl
+
+/-! ### the hypotheses are satisfiable on non-trivial values (tests, not proofs of the property) -/
+
+example : Decay (fun t : Int => if t = 0 then (1 : ℚ) else 1 / 2) :=
+  ⟨by simp, fun t _ => by split <;> norm_num, fun t _ => by split <;> norm_num⟩
+example : InRange 1600000060 1600000000 := by unfold InRange; norm_num
 
 end BytomModel.Props.C35
